@@ -39,8 +39,8 @@ pub fn run(case: &Sx, out: &mut Vec<Ev>) {
         let o = op.list();
         let n = |i: usize| o[i].num();
         match n(0) {
-            1 => t.add_structure(ProcessorLocalApic::new(n(1) as u8, n(2) as u8, status(n(3)))),
-            2 => t.add_structure(IoApic::new(n(1) as u8, n(2) as u32, n(3) as u32)),
+            1 => t.add_structure(raw(ProcessorLocalApic::new(n(1) as u8, n(2) as u8, status(n(3))))),
+            2 => t.add_structure(raw(IoApic::new(n(1) as u8, n(2) as u32, n(3) as u32))),
             3 => {
                 let mut g = Gicc::new(status(n(1)));
                 for s in o[2].list() {
@@ -64,7 +64,7 @@ pub fn run(case: &Sx, out: &mut Vec<Ev>) {
                         _ => panic!("harness: bad gicc setter"),
                     };
                 }
-                t.add_structure(g)
+                t.add_structure(raw(g))
             }
             4 => {
                 let ver = match n(3) {
@@ -75,7 +75,7 @@ pub fn run(case: &Sx, out: &mut Vec<Ev>) {
                     4 => GicVersion::GICv4,
                     _ => panic!("harness: bad gic version"),
                 };
-                t.add_structure(Gicd::new(n(1) as u32, n(2), ver))
+                t.add_structure(raw(Gicd::new(n(1) as u32, n(2), ver)))
             }
             5 => {
                 let mut g = GicMsi::new();
@@ -88,10 +88,10 @@ pub fn run(case: &Sx, out: &mut Vec<Ev>) {
                         _ => panic!("harness: bad msi setter"),
                     };
                 }
-                t.add_structure(g)
+                t.add_structure(raw(g))
             }
-            6 => t.add_structure(Gicr::new(n(1), n(2) as u32)),
-            7 => t.add_structure(GicIts::new(n(1) as u32, n(2))),
+            6 => t.add_structure(raw(Gicr::new(n(1), n(2) as u32))),
+            7 => t.add_structure(raw(GicIts::new(n(1) as u32, n(2)))),
             8 => {
                 let hs = match n(1) {
                     0 => HartStatus::Disabled,
@@ -99,12 +99,12 @@ pub fn run(case: &Sx, out: &mut Vec<Ev>) {
                     2 => HartStatus::OnlineCapable,
                     _ => panic!("harness: bad hart status"),
                 };
-                t.add_structure(RINTC::new(hs, n(2), n(3) as u32, n(4) as u32, n(5), n(6) as u32))
+                t.add_structure(raw(RINTC::new(hs, n(2), n(3) as u32, n(4) as u32, n(5), n(6) as u32)))
             }
-            9 => t.add_structure(IMSIC::new(n(1) as u16, n(2) as u16, n(3) as u8, n(4) as u8, n(5) as u8, n(6) as u8)),
-            10 => t.add_imsic(IMSIC::new(n(1) as u16, n(2) as u16, n(3) as u8, n(4) as u8, n(5) as u8, n(6) as u8)),
-            11 => t.add_structure(APLIC::new(n(1) as u8, o[2].arr::<8>(), n(3) as u16, n(4) as u32, n(5), n(6) as u32, n(7) as u16)),
-            12 => t.add_structure(PLIC::new(n(1) as u8, o[2].arr::<8>(), n(3) as u16, n(4) as u16, n(5) as u32, n(6), n(7) as u32)),
+            9 => t.add_structure(raw(IMSIC::new(n(1) as u16, n(2) as u16, n(3) as u8, n(4) as u8, n(5) as u8, n(6) as u8))),
+            10 => t.add_imsic(raw(IMSIC::new(n(1) as u16, n(2) as u16, n(3) as u8, n(4) as u8, n(5) as u8, n(6) as u8))),
+            11 => t.add_structure(raw(APLIC::new(n(1) as u8, o[2].arr::<8>(), n(3) as u16, n(4) as u32, n(5), n(6) as u32, n(7) as u16))),
+            12 => t.add_structure(raw(PLIC::new(n(1) as u8, o[2].arr::<8>(), n(3) as u16, n(4) as u16, n(5) as u32, n(6), n(7) as u32))),
             _ => panic!("harness: bad madt op"),
         }
         out.push(Ev::Num(0));
